@@ -61,6 +61,20 @@ func findLifecycle(c *core.Ctx, r *core.Report, rule string) *lifecycleRoles {
 		return func(com *ssa.CallCommon) bool { return core.IsInvoke(com, m) }
 	}
 	l.exposer = pick("creation routine (registers the early factory, populates, initializes)", inv(ro.SCRAddFactory), inv(ro.IAProps), inv(ro.CPBeforeInit))
+	// the creation routine takes the definition and hands back the component to publish: when the protocol itself sits
+	// in a helper running stage objects over a shared state, the routine is the helper's only caller with that shape
+	l.exposer = liftToShape(c, l.exposer, func(sig *types.Signature) bool {
+		metaT := c.Named("component_definition", "Meta")
+		hasMeta := func(tu *types.Tuple) bool {
+			for i := 0; i < tu.Len(); i++ {
+				if core.NamedOf(tu.At(i).Type()) == metaT && metaT != nil {
+					return true
+				}
+			}
+			return false
+		}
+		return hasMeta(sig.Params()) && hasMeta(sig.Results())
+	})
 	l.populator = pick("populator (property stage and injection)", inv(ro.IAProps), func(com *ssa.CallCommon) bool { return core.IsCallTo(com, ro.PropertyInject) })
 	l.initFn = pick("initialization routine (before-init and after-init dispatch)", inv(ro.CPBeforeInit), inv(ro.CPAfterInit), inv(ro.APS))
 	if l.exposer == nil || l.populator == nil || l.initFn == nil || l.accessor == nil || l.creator == nil || len(l.injectors) == 0 {
@@ -474,6 +488,12 @@ func c05ShortCircuit(c *core.Ctx, r *core.Report, l *lifecycleRoles) {
 		return
 	}
 	resolver := subs[0]
+	if bs, _ := findBootstrap(c); bs != nil {
+		// a resolver that is a method of a policy object: the routine is the delegate's method that asks the policy
+		resolver = liftToShape(c, resolver, func(sig *types.Signature) bool {
+			return sig.Recv() != nil && core.NamedOf(sig.Recv().Type()) == bs.recv
+		})
+	}
 	maxProcs := 2
 	if r.Tier == "thorough" {
 		maxProcs = 3
@@ -505,6 +525,11 @@ func c05ShortCircuit(c *core.Ctx, r *core.Report, l *lifecycleRoles) {
 	}
 	// the creator path: resolver first, the normal life cycle only if it produced nothing
 	callers := c.Callers(resolver)
+	for i := 0; i < 3 && len(callers) == 1 && pureForwarder(core.TopLevel(callers[0])) == resolver; i++ {
+		// the exported face of the resolver: the creator path is whoever calls that
+		resolver = core.TopLevel(callers[0])
+		callers = c.Callers(resolver)
+	}
 	if !r.Exactly("C05.R7", "callers of the before-instantiation resolver", len(callers), 1) {
 		return
 	}
@@ -542,4 +567,39 @@ func populateRules(c *core.Ctx, r *core.Report, l *lifecycleRoles, ruleOf func(r
 		}
 	}
 	prs.report(c, r, l.populator, ruleOf, cons, need)
+}
+
+// liftToShape: fn itself when its signature has the shape, else the nearest single static caller (up to three levels)
+// that has it; fn when there is none.
+func liftToShape(c *core.Ctx, fn *ssa.Function, shape func(*types.Signature) bool) *ssa.Function {
+	if fn == nil {
+		return nil
+	}
+	cur := fn
+	for i := 0; i < 4; i++ {
+		if shape(cur.Signature) {
+			return cur
+		}
+		callers := c.Callers(cur)
+		var tops []*ssa.Function
+		for _, cl := range callers {
+			if t := core.TopLevel(cl); t != cur && !containsFn(tops, t) {
+				tops = append(tops, t)
+			}
+		}
+		if len(tops) != 1 {
+			return fn
+		}
+		cur = tops[0]
+	}
+	return fn
+}
+
+func containsFn(l []*ssa.Function, f *ssa.Function) bool {
+	for _, x := range l {
+		if x == f {
+			return true
+		}
+	}
+	return false
 }
